@@ -114,7 +114,12 @@ Fixpoint poll_loop (f : nat) (i : nat) (s : state) : state :=
   end.
 
 Definition poll_task (i : nat) (s : state) : state :=
-  if edone (getn s i) then s else poll_loop POLL_FUEL i (updn i (fun n => set_epoll n true) s).
+  match decl_of p i with
+  | DEff _ _ _ =>
+      if edone (getn s i) then s
+      else poll_loop POLL_FUEL i (updn i (fun n => set_epoll n true) s)
+  | _ => s          (* only effects have tasks *)
+  end.
 
 Fixpoint remove_nth (k : nat) (l : list nat) : list nat :=
   match l, k with
@@ -170,20 +175,23 @@ Definition init_node (d : decl) : node :=
   | DSig _ v => set_sval dnode v
   | DMemo _ _ => dnode
   | DDer _ => dnode
-  | DEff ERender _ _ => set_epoll (set_ealive dnode true) true
-  | DEff _ _ _ =>
-      (* effect_base: dirty, one notification before the task is spawned *)
-      set_epoll (set_ealive (set_efirst (set_eflag (set_edirty dnode true) true) true) true) true
+  | DEff _ _ _ => set_epoll (set_ealive dnode true) true     (* not spawned yet *)
   end.
 
 Definition create (s : state) (i : nat) : state :=
   match decl_of p i with
   | DEff ERender body _ =>
-      (* first run, synchronously: owner.with(|| subscriber.with_observer(|| fun(None))) *)
-      let s := begin_run true i s in
+      (* RenderEffect::new: dirty = false, no notification; the first run happens synchronously:
+         owner.with(|| subscriber.with_observer(|| fun(None))), then the task is spawned *)
+      let s := updn i (fun n => set_edone (set_ereg (set_eflag (set_edirty (set_efirst n false) false) false) false) false) s in
+      (* (clear_sources is a no-op here: a new effect has no sources; written so that the first
+         run and the re-runs share one path) *)
+      let s := begin_run true i (clear_sources i s) in
       let '(s, v) := eval p (read_any p) true (Some i, true) body s in
-      enqueue i (updn i (fun n => set_epoll n false) (emit (EvEnd i v) s))
-  | DEff _ _ _ => enqueue i (updn i (fun n => set_epoll n false) s)
+      enqueue i (updn i (fun n => set_epoll (set_ereg n false) false) (emit (EvEnd i v) s))
+  | DEff _ _ _ =>
+      (* effect_base: dirty = true, one notification (no waker yet), task spawned *)
+      enqueue i (updn i (fun n => set_epoll (set_edone (set_ereg (set_eflag (set_edirty (set_efirst n true) true) true) false) false) false) s)
   | _ => s
   end.
 
